@@ -118,7 +118,16 @@ def scenario(max_h: int = 8) -> Any:
                     ents.append(dict(shots_[0]))
             sources.append({"kind": kind, "entries": ents, "fail_polls": sorted(fails) if kind != "label" else [],
                             "live_list": bool(d["live_list"]) and kind != "label"})
-        return {"base_us": base, "horizon_min": H, "sources": sources, "latencies": d["latencies"], "kick_fail": sorted(d["kick_fail"])}
+        r = {"base_us": base, "horizon_min": H, "sources": sources, "latencies": d["latencies"], "kick_fail": sorted(d["kick_fail"])}
+        if d["dst"]:
+            # the scheduler process lives in a DST zone and the run crosses one of its transitions (a few minutes before it, up to inside it)
+            zone, k, before = d["dst"]
+            tr = [t for t in c13.transitions(zone) if t > clock.to_us(dtm.datetime(2020, 1, 1, tzinfo=clock.UTC))]
+            t_us = tr[k % len(tr)]
+            shift = (t_us - before * MIN) // MIN * MIN - m0
+            r["base_us"] = base + shift
+            r["local_zone"] = zone
+        return r
 
     src = st.tuples(st.sampled_from(["scripted", "scripted", "scripted", "label"]), entries(),
                     st.one_of(st.just(set()), st.just(set()), st.sets(st.integers(0, 8), max_size=3)))
@@ -132,6 +141,7 @@ def scenario(max_h: int = 8) -> Any:
         "latencies": st.one_of(st.just([0.0]), st.just([0.0]), st.lists(st.sampled_from([0.0, 0.0, 0.5, 1.0, 2.0, 61.0]), min_size=1, max_size=4)),
         "kick_fail": st.one_of(st.just(set()), st.just(set()), st.sets(st.integers(0, 30), max_size=5)),
         "dup_label": st.booleans(),
+        "dst": st.one_of(st.none(), st.none(), st.none(), st.tuples(st.sampled_from(["Europe/Berlin", "America/New_York", "Australia/Lord_Howe"]), st.integers(0, 40), st.integers(0, 4))),
         "live_list": st.sampled_from([False, False, True]),     # scripted sources return their own list object and edit it in place in post_send
     }).map(fin)
 
@@ -242,7 +252,7 @@ def run_case(case: Dict[str, Any]) -> Outcome:
         classes.add("label_source")
     out.info = info
     out.nontrivial = bool(classes - {"label_source"})
-    out.classes = sorted(classes) + (["horizon_over_an_hour"] if H > 60 else [])
+    out.classes = sorted(classes) + (["horizon_over_an_hour"] if H > 60 else []) + (["process_zone_crosses_dst_transition"] if case.get("local_zone") else [])
     out.trace = {"polls": {n: [[_fmt(p["t"]), p["failed"], p["listed"]] for p in pl[:4]] for n, pl in polls.items()},
                  "kicks": [[_fmt(k["t"]), k["tag"], k["ok"]] for k in kicks[:25]]}
     out.counters = {"kicks_observed": len(kicks), "virtual_minutes": H}
